@@ -292,7 +292,60 @@ def body_sparql_path(desc, F, *args):
     return None
 
 
-BODIES = {"path": body_path, "sparql-path": body_sparql_path}
+def body_construct(desc, F, *args):
+    """path objects are values: building a larger path from an existing one (with the / | ~ * operators rdflib defines on
+    IRIs and paths) must not change what the existing one denotes"""
+    g = CountingGraph()
+    edges = []
+    i = 0
+    for pn in desc["edges"]:
+        s, o = F.node(args[i]), F.node(args[i + 1])
+        i += 2
+        g.add((s, PRED[pn], o))
+        if not tin((s, pn, o), edges):
+            edges.append((s, pn, o))
+    P_, Q_, R_ = PRED["p"], PRED["q"], PRED["r"]
+    kind = desc["base"]
+    if kind == "seq":
+        base, ast = P_ / Q_, ["seq", ["iri", "p"], ["iri", "q"]]
+    elif kind == "alt":
+        base, ast = P_ | Q_, ["alt", ["iri", "p"], ["iri", "q"]]
+    elif kind == "seq3":
+        base, ast = (P_ / Q_) / P_, ["seq", ["seq", ["iri", "p"], ["iri", "q"]], ["iri", "p"]]
+    else:
+        base, ast = ~P_, ["inv", ["iri", "p"]]
+    d = desc["derive"]
+    if d == "base/r":
+        ext = base / R_
+    elif d == "r/base":
+        ext = R_ / base
+    elif d == "base|r":
+        ext = base | R_
+    elif d == "r|base":
+        ext = R_ | base
+    elif d == "base*":
+        ext = base * "*"
+    elif d == "~base":
+        ext = ~base
+    elif d == "-alt":
+        ext = -(base) if kind == "alt" else base / R_
+    else:
+        raise AssertionError(d)
+    list(g.triples((None, ext, None)))  # use the derived path once
+    nodes = [n[0] for n in dedup([(s,) for s, _, o in edges] + [(o,) for s, _, o in edges])]
+    want = rel(ast, edges, nodes, 2 * len(edges) + 2)
+    g.budget = 600
+    got = [(s, o) for s, _, o in g.triples((None, base, None))]
+    for pr in got:
+        if not tin(pr, want):
+            return "after deriving %s from it, the %s path produces a pair outside its relation" % (d, kind)
+    for pr in want:
+        if not tin(pr, got):
+            return "after deriving %s from it, the %s path misses a pair of its relation" % (d, kind)
+    return None
+
+
+BODIES = {"path": body_path, "sparql-path": body_sparql_path, "path-construct": body_construct}
 
 P, Q = ["iri", "p"], ["iri", "q"]
 DEPTH1 = [P, ["inv", P], ["seq", P, Q], ["seq", P, P], ["alt", P, Q], ["mul", P, "*"], ["mul", P, "+"], ["mul", P, "?"],
@@ -367,6 +420,13 @@ def obligations(tier, seed):
                     obs.append(dict(oid="sparql-path/%s/%s/%s/%s" % (show(ast), "".join(es), ends, kind), family="sparql-path",
                                     desc={"path": ast, "edges": es, "ends": ends, "kind": kind},
                                     sig=[("x%d" % i, "i") for i in range(nsym)], budget=300))
+    for base in ("seq", "alt", "seq3", "inv"):
+        for d in ("base/r", "r/base", "base|r", "r|base", "base*", "~base", "-alt"):
+            for es in ([["p", "q"], ["p", "r"]] if base != "seq3" else [["p", "q", "p"]]):
+                if es == ["p", "r"] and d not in ("base/r", "base|r"):
+                    continue
+                obs.append(dict(oid="path-construct/%s/%s/%s" % (base, d, "".join(es)), family="path-construct",
+                                desc={"base": base, "derive": d, "edges": es}, sig=[("x%d" % i, "i") for i in range(2 * len(es))], budget=300))
     d2 = depth2()
     if tier == "quick":
         sel = rnd.sample(d2, 24)
@@ -396,6 +456,8 @@ def bounds(tier):
                        "" if tier == "quick" else " and 30 with n=3"),
             "sparql-path": "the 12 depth<=1 expressions as SPARQL triple patterns (text -> rdflib parser -> translatePath -> evalBGP), n=2 edges, "
                            "4 end combinations (given ends as constants), nodes/ends symbolic IRIs and symbolic integer literals",
+            "path-construct": "a path built with the / | ~ * - operators keeps its denotation after larger paths were derived from it (aliasing of the "
+                              "argument lists)",
             "outside": "n>3 edges, depth>2, ConjunctiveGraph/ReadOnlyGraphAggregate as the evaluated graph"}
 
 
@@ -406,6 +468,8 @@ def _has_neg_inv(ast):
 
 
 def finding_key(ob, cex, reason):
+    if ob["family"] == "path-construct":
+        return "path-construct|%s" % reason
     if ob["desc"].get("model_known_neg_inv"):
         return "path|residual|%s" % reason.replace("SPARQL: ", "")
     if _has_neg_inv(ob["desc"]["path"]):
@@ -416,6 +480,8 @@ def finding_key(ob, cex, reason):
 def residual(ob):
     """For an obligation that hits the recorded finding, the same obligation against an oracle that
     models exactly that defect: anything it still refutes is a different violation."""
+    if ob["family"] == "path-construct":
+        return None
     if _has_neg_inv(ob["desc"]["path"]) and not ob["desc"].get("model_known_neg_inv"):
         d = dict(ob["desc"])
         d["model_known_neg_inv"] = True
